@@ -62,6 +62,10 @@ int main(int argc, char** argv) {
   add_unit("l1norm2_3", 6, 1, [](auto const* x, auto* o) { using T = TY(o); o[0] = glm::l1Norm(ldv<3, T>(x), ldv<3, T>(x + 3)); });
   add_unit("l2norm_3", 3, 1, [](auto const* x, auto* o) { using T = TY(o); o[0] = glm::l2Norm(ldv<3, T>(x)); });
   add_unit("lmaxnorm_3", 3, 1, [](auto const* x, auto* o) { using T = TY(o); o[0] = glm::lMaxNorm(ldv<3, T>(x)); });
+  add_unit("l2norm2_3", 6, 1, [](auto const* x, auto* o) { using T = TY(o); o[0] = glm::l2Norm(ldv<3, T>(x), ldv<3, T>(x + 3)); });
+  add_unit("lmaxnorm2_3", 6, 1, [](auto const* x, auto* o) { using T = TY(o); o[0] = glm::lMaxNorm(ldv<3, T>(x), ldv<3, T>(x + 3)); });
+  add_unit("lxnorm_3", 3, 1, [](auto const* x, auto* o) { using T = TY(o); o[0] = glm::lxNorm(ldv<3, T>(x), 3u); });
+  add_unit("lxnorm2_3", 6, 1, [](auto const* x, auto* o) { using T = TY(o); o[0] = glm::lxNorm(ldv<3, T>(x), ldv<3, T>(x + 3), 3u); });
 #endif
   return unit_main(argc, argv);
 }
